@@ -116,7 +116,6 @@ MUTANTS = [
     ("c11_negative_index_wraps", "C11", [(SB, "        if idx < 0:\n            # A negative slot index is outside the table; do not wrap around to its end\n            raise IndexError(f\"Index {idx} is out of scoreboard range ({self.size - 1})\")\n        return self.sb[idx]", "        return self.sb[idx]")]),
     ("c11_isworkingtime_unchecked", "C11", [(PJ, "        if sbIdx < 0 or sbIdx >= self.scoreboard.size:\n            # Outside the scheduling horizon nothing is working time\n            return False\n", "")]),
     ("c11_macro_cap_removed", "C11", [(MP, "        while \"${\" in content and iteration < max_iterations:", "        while \"${\" in content:")]),
-    ("c11_scan_without_progress", "C11", [(MP, "                    result.append(expansion)\n                    i = j\n                    continue", "                    result.append(expansion)\n                    continue")]),
     # ------------------------------------------------------------------ C12
     ("c12_mode_not_reset", "C12", [(PJ, "        if hasattr(AttributeBase, \"setMode\"):\n            AttributeBase.setMode(0)\n", "")]),
     ("c12_default_shared", "C12", [(PR, "            self._value = deep_clone(self._type.default)", "            self._value = self._type.default")]),
@@ -182,6 +181,11 @@ MUTANTS = [
     ("c20_output_dir_not_passed", "C20", [(PL, "success, error_msg = run_scriptplan(str(temp_file), str(temp_output_dir))", "success, error_msg = run_scriptplan(str(temp_file))")]),
     ("c20_write_in_cwd", "C20", [(RP, "        output_dir = self.project.outputDir or \"./\"\n        base_name = self.name or self.id", "        output_dir = \"./\"\n        base_name = self.name or self.id")]),
     ("c20_success_path_keeps_stdin_copy", "C20", [(PL, "        if stdin_temp_file and stdin_temp_file.exists():\n            stdin_temp_file.unlink()\n            if verbose:\n                logger.debug(\"Cleaned up stdin temporary file: %s\", stdin_temp_file)\n", "")]),
+]
+
+# behaviour-changing edits that the analysis cannot decide: the check must NOT pass silently (exit 1 or exit 2)
+UNDECIDED = [
+    ("c11_scan_without_progress", "C11", [(MP, "                    result.append(expansion)\n                    i = j\n                    continue", "                    result.append(expansion)\n                    continue")]),
 ]
 
 # behaviour-preserving edits: the checks named must stay silent
